@@ -27,6 +27,39 @@ CHECKS["C07"] = {
     "parts": [A("vtx", "./checks/c07", "TestC07", budget={"quick": 90, "thorough": 1500})],
 }
 
+SWEEP = ("after every event the response, Server.AllocationCount and a probe sweep (one Send indication per client x peer, one ChannelData per "
+         "client x channel number, one datagram per peer x relay address incl. relay addresses of deleted allocations) are compared with the reference "
+         "model: the complete delivery log must equal the prediction; then a drain through every remaining deadline at -1ns/+1ns. ")
+CHECKS["C01"] = {
+    "level": "model_checking",
+    "rule": "Engine A: every event sequence (depth 4 quick / 5 thorough) over {Allocate c1 (IPv4 | IPv6), Allocate c2, Refresh0, CreatePermission [A],[B],[A,B],[V6], "
+            "ChannelBind (n1,A),(n1,B),(n2,V6),(n2,A'), c2: CreatePermission [A], ChannelBind (n1,B), clock to next deadline -/+1ns, by 7s} x operator policies "
+            "{allow, deny-IP(B), deny-all} x timeout configurations, on the real turn.Server in virtual time; " + SWEEP +
+            "C01 judges: datagrams arriving at peers that the model does not authorise (wrong source included) and permissions/bindings accepted against policy or address family.",
+    "parts": [A("vtx", "./checks/c01", "TestC01", budget={"quick": 90, "thorough": 1500})],
+}
+CHECKS["C02"] = {
+    "level": "model_checking",
+    "rule": "Engine A: same state space as C01 (two clients, peers A, A' (same IP other port), B (other IP same port), V6; three policies; timeout configurations); " + SWEEP +
+            "C02 judges: anything a client receives because of a peer datagram that the model does not authorise (unpermitted sender, wrong client, wrong encapsulation/attribution).",
+    "parts": [A("vtx", "./checks/c02", "TestC02", budget={"quick": 90, "thorough": 1500})],
+}
+CHECKS["C04"] = {
+    "level": "model_checking",
+    "rule": "Engine A: every interleaving (event sequences, depth 4 quick / 5 thorough) of three clients c1=(10.0.0.2:4000,u1), c2=(same IP other port,u2), c3=(other IP,u1) "
+            "each doing {Allocate with one shared transaction id, Refresh0, CreatePermission [A], ChannelBind (n1,A),(n1,B)} plus clock advances around deadlines, "
+            "2 timeout configurations; " + SWEEP + "The reference model is keyed by client 5-tuple, so any cross-allocation effect is a disagreement.",
+    "parts": [A("vtx", "./checks/c04", "TestC04", budget={"quick": 90, "thorough": 1500})],
+}
+CHECKS["C08"] = {
+    "level": "model_checking",
+    "rule": "Engine A: every sequence (depth 3 quick / 4 thorough, after two Allocates) of ChannelBind over numbers {0x4000,0x4001,0x7FFF,0x3FFF,0x8000,0,0xFFFF} x peers {A, A' (port differs), B}, "
+            "second client binds, clock advances around expiry; " + SWEEP + "Plus: all 65536 channel numbers bound on a fresh allocation, each followed by a sweep. "
+            "Model: accepted iff number in [0x4000,0x7FFF]; conflicts get 400 and change nothing; identical re-bind refreshes.",
+    "parts": [A("vtx", "./checks/c08", "TestC08", budget={"quick": 90, "thorough": 1500}),
+              A("all-numbers", "./checks/c08", "TestC08AllNumbers", budget={"quick": 60, "thorough": 300})],
+}
+
 ENGINES = [
     {"name": "vtx", "path": "/verif/vtx", "serves_properties": ["C06"],
      "kind_free_text": "Engine A: explicit-state search over event histories of the real turn.Server/turn.Client in virtual time (testing/synctest) over an in-memory network, reference model + probe sweep after every event"},
